@@ -6,16 +6,16 @@ CONSTANTS
  TermTO = 3000
  FixVote = TRUE
  MaxTerm = 2
- MaxLog = 2
+ MaxLog = 0
  Values = {1}
  AppendAnywhere = FALSE
- MaxTmo = 2
- MaxHb = 0
+ MaxTmo = 3
+ MaxHb = 1
  MaxDup = 0
  MaxFlight = 3
  MaxRestart = 0
- InitMode = "elected"
+ InitMode = "cold"
 VIEW View
 CONSTRAINT Constraint
+INVARIANT ElectionSafety
 CHECK_DEADLOCK FALSE
-INVARIANT CommitMonotone
